@@ -3,7 +3,7 @@ CFG = dict(
     oracle=True,
     reference=True,
     corr='dec of every AEAD scheme (checked-slice Gallina models over stdlib oracles) vs tink.AEAD.Decrypt on mutation streams (bit flips, cuts, extensions, prefix swaps, AD edits, other keys, arbitrary strings, envelope headers): exact accept/reject/panic prediction',
-    coq_targets=['props/C02.vo', 'model/AeadFrame.vo', 'model/Ctr.vo', 'model/EtM.vo', 'model/Polyval.vo', 'model/GcmSiv.vo', 'model/Xaes.vo', 'model/Envelope.vo', 'lib/XBase.vo'],
+    coq_targets=['props/C02.vo', 'model/AeadFrame.vo', 'model/Ctr.vo', 'model/EtM.vo', 'model/Polyval.vo', 'model/GcmSiv.vo', 'model/Xaes.vo', 'model/Envelope.vo', 'model/AeadKeyset.vo', 'lib/XBase.vo'],
 )
 MANIFEST = dict(
     text='Theorems in coq/props/C02.v about the same executable Gallina models as C01, in which every Go slice expression is a checked slice with a Panic outcome: for every AEAD key type Decrypt returns a plaintext p for (c, ad) exactly when c is Encrypt(p, ad) under some IV of the right length (from the uniqueness law of the standard AEAD for AES-GCM, ChaCha20-Poly1305, XChaCha20-Poly1305 and XAES-256-GCM; proved from the model itself for AES-CTR-HMAC and AES-GCM-SIV); too-short or wrongly prefixed ciphertexts are errors; Decrypt of the model never panics except where the standard library itself panics (ChaCha20-Poly1305 Open above 2^38-48 bytes), which is characterised exactly; parseEnvelope never panics. The model is tied to the code by predicting accept/reject/panic for every mutant of valid ciphertexts and for arbitrary byte strings.',
